@@ -60,6 +60,16 @@ CHECKS = {
             "authorised entry and requests the digest-prefixed file under consistent snapshots. Tied to the code by reading "
             "real targets (0-64 KiB, corrupted in 6 ways) through the scripted transport.",
             NOTE + " SHA-256 uninterpreted (H); limits below 2^64-1.", "5/C06"),
+    "C07": ("Coq proofs: glob matcher = inductive wildcard matching; find_target = first authorised entry in pre-order by "
+            "induction over the role tree; validate; correspondence through the public schema API and signed repositories",
+            "Theorems for all patterns/names and all delegation trees (any depth/fan-out): the matcher is wildcard matching "
+            "('*' any string, '?' any character, across '/'); find_target returns the head of the pre-order list of "
+            "authorised entries, hence only entries reached through chains of matching delegations; a validated tree lists "
+            "no name without an authorised entry. Tied to the code by Delegations::target_is_delegated on all pattern/name "
+            "pairs of length <=3 (4), Targets::find_target / targets_iter on random trees judged by an independent Python "
+            "lookup, and signed repositories loaded end to end.",
+            NOTE + " Modelled not verified: globset (only the alphabet literal, '*', '?'; '**', classes, braces, escapes are "
+            "outside the model and the generators).", "5/C07"),
     "C08": ("Coq proofs about clean_name, the path check and the file-system step list; exhaustive/random correspondence for "
             "names, end-to-end save_target runs with directory listings and an in-transfer observer",
             "Theorems: accepted names resolve to non-empty sequences of normal components; a destination that passes the check "
